@@ -153,13 +153,17 @@ class Ctx:
 
     # ------------------------------------------------------------------ validation
     def validate(self, trace_file, cases_by_id=None, driver=None, opts=None, shards=NPROC, module="MCTrace",
-                 eps="EpsDefault", nontrivial=None, timeout=1800):
-        """validate histories; book-keep verdicts; returns verdict dict"""
+                 eps="EpsDefault", nontrivial=None, timeout=1800, sparse=False, n_records=None):
+        """validate histories; book-keep verdicts; returns verdict dict.
+        sparse: the trace spec prints a verdict only for rejected / deviating records"""
         v, _, st, _ = tlc.validate_traces(trace_file, self.work / f"val_{len(list(self.work.glob('val_*')))}",
-                                          self.all_known_names, module=module, shards=shards, eps=eps, timeout=timeout)
+                                          self.all_known_names, module=module, shards=shards, eps=eps, timeout=timeout,
+                                          sparse=sparse)
         self.states += st
         self.transitions += st
-        self.traces += len(v)
+        self.traces += n_records if sparse else len(v)
+        if sparse:
+            self.evaluations += n_records - len(v)
         hist = None
         bad = [i for i, x in v.items() if x[0] or (x[1] - set(self.known))]
         for i, (fail, known, n) in v.items():
@@ -179,7 +183,7 @@ class Ctx:
                     g.write(json.dumps(hist[i]) + "\n")
             try:
                 _, ex, _, _ = tlc.validate_traces(sub, self.work / "val_explain", self.all_known_names, module=module,
-                                                  shards=min(shards, len(bad[:20])), explain=True, eps=eps)
+                                                  shards=min(shards, len(bad[:20])), explain=True, eps=eps, sparse=sparse)
             except MachineryError:
                 ex = {}
             for i in bad[:20]:
